@@ -92,17 +92,14 @@ func (s *vfC03rateSUT) index() error {
 	return nil
 }
 
-type vfC03rateBk struct {
-	Pres bool `json:"pres"`
-	Def  int  `json:"def"`
-	Ttl  int  `json:"ttl"`
-}
+// the model's compact projection: bk[bid] = [] (not in the heap) or [deficit in units, ticks until Expiry]
 type vfC03rateSt struct {
-	G     int                    `json:"g"`
-	NP    []int                  `json:"np"`
-	Bk    map[string]vfC03rateBk `json:"bk"`
-	Ideal map[string]int         `json:"ideal"`
+	G  int              `json:"g"`
+	NP []int            `json:"np"`
+	Bk map[string][]int `json:"bk"`
 }
+
+func (s *vfC03rateSt) pres(bid string) bool { return len(s.Bk[bid]) > 0 }
 
 func vfC03rateDef(cf *v.Conf, burst int, tokens float64) int {
 	return int(math.Round((float64(burst) - tokens) * float64(cf.U)))
@@ -139,7 +136,7 @@ func (s *vfC03rateSUT) locs() map[string]vfC03rateLoc {
 
 // project reads the real limiter in-package (L2 only) and checks the heaps' structure.
 func (s *vfC03rateSUT) project(now time.Time) (*vfC03rateSt, string) {
-	st := &vfC03rateSt{NP: make([]int, len(s.cf.NP)), Bk: map[string]vfC03rateBk{}}
+	st := &vfC03rateSt{NP: make([]int, len(s.cf.NP)), Bk: map[string][]int{}}
 	if s.cf.Glob.Rate != 0 {
 		st.G = vfC03rateDef(s.cf, s.cf.Glob.Burst, s.l.globalBucket.TokensAt(now))
 	}
@@ -150,7 +147,7 @@ func (s *vfC03rateSUT) project(now time.Time) (*vfC03rateSt, string) {
 	}
 	held := 0
 	for _, bid := range s.cf.Bids {
-		st.Bk[bid] = vfC03rateBk{}
+		st.Bk[bid] = []int{}
 	}
 	for bid, loc := range s.locs() {
 		hs := s.l.SubnetRateLimiter.ipv4Heaps
@@ -168,7 +165,7 @@ func (s *vfC03rateSUT) project(now time.Time) (*vfC03rateSt, string) {
 		if d := b.Expiry.Sub(now); d > 0 {
 			ttl = int((d + s.va.Tick - 1) / s.va.Tick)
 		}
-		st.Bk[bid] = vfC03rateBk{Pres: true, Def: vfC03rateDef(s.cf, lv[loc.lvl].Burst, b.TokensAt(now)), Ttl: ttl}
+		st.Bk[bid] = []int{vfC03rateDef(s.cf, lv[loc.lvl].Burst, b.TokensAt(now)), ttl}
 		held++
 	}
 	// structure of the heaps: index map consistent, min-heap on Expiry, nothing but the model's buckets
@@ -324,11 +321,11 @@ func vfC03rateWalk(cf *v.Conf, va *v.Variant, res *vfh.Result, file string, wi i
 			if orc.ReachesSubnet(a) && !orc.Desync {
 				st, _ := sut.project(time.Now())
 				for bid := range sut.locs() {
-					if orc.MustBeGone(bid) && st.Bk[bid].Pres {
+					if orc.MustBeGone(bid) && st.pres(bid) {
 						run.mism("rate-idle-bucket-retained", fmt.Sprintf("[%s %s] subnet bucket %s is still held although it was full and its grace period over %v ago (R6)",
 							cf.Inst, va.Name, bid, time.Duration(orc.Now-orc.Sub[bid].ExpAt)), si, false, true)
 					}
-					if orc.MustBeHeld(bid) && !st.Bk[bid].Pres {
+					if orc.MustBeHeld(bid) && !st.pres(bid) {
 						run.mism("rate-bucket-forgotten-before-full", fmt.Sprintf("[%s %s] subnet bucket %s was dropped %v before it is full again (R6): the next requests of that subnet get a fresh burst",
 							cf.Inst, va.Name, bid, time.Duration(orc.Sub[bid].Def)), si, true, false)
 						orc.Desync = true
@@ -344,11 +341,22 @@ func vfC03rateWalk(cf *v.Conf, va *v.Variant, res *vfh.Result, file string, wi i
 			run.mism("L2:heap-structure", fmt.Sprintf("[%s %s] %s", cf.Inst, va.Name, bad), si, nil, nil)
 		}
 		if modelSync {
-			var want vfC03rateSt
-			if err := json.Unmarshal(step.State, &want); err != nil {
+			var raw struct {
+				G  int             `json:"g"`
+				NP []int           `json:"np"`
+				Bk json.RawMessage `json:"bk"`
+			}
+			if err := json.Unmarshal(step.State, &raw); err != nil {
 				return fmt.Errorf("state of step %d: %w", si, err)
 			}
-			want.Ideal = nil
+			bk, err := v.FlexMap[[]int](raw.Bk)
+			if err != nil {
+				return fmt.Errorf("state of step %d: %w", si, err)
+			}
+			want := vfC03rateSt{G: raw.G, NP: raw.NP, Bk: bk}
+			if want.NP == nil {
+				want.NP = []int{}
+			}
 			if vfh.Canon(want) != vfh.Canon(st) {
 				run.mism("L2:state-differs-from-model", fmt.Sprintf("[%s %s] after %s", cf.Inst, va.Name, vfC03rateOpStr(op)), si, want, st)
 				modelSync = false
@@ -546,7 +554,11 @@ func vfC03rateConcOne(cf *v.Conf, va *v.Variant, res *vfh.Result, rnd *rand.Rand
 			for bid, loc := range sut.locs() {
 				_ = loc
 				b := o.Sub[bid]
-				if int64(st.Bk[bid].Def)*b.Tok != b.Def*int64(cf.U) {
+				def := 0
+				if st.pres(bid) {
+					def = st.Bk[bid][0]
+				}
+				if int64(def)*b.Tok != b.Def*int64(cf.U) {
 					same = false
 				}
 			}
